@@ -56,7 +56,7 @@ type Engine struct {
 
 	repoDir    string
 	harnessDir string
-	tokModel   any
+	tokModels  map[string]*TokModel
 }
 
 func loadEngine(repoDir, harnessDir string, overlay map[string][]byte, extraPatterns []string) (*Engine, error) {
